@@ -64,6 +64,19 @@ pub fn run_ghw(args: &[&str]) -> String {
         }
         let got: Vec<(u32, String)> = child.iter_changes().map(|(i, v)| (i, v.to_bit_string().unwrap())).collect();
         checked += 1;
+        // when the file declares bit ranges for both variables the position of the sub-range is known
+        // independently of the loader's alias arithmetic: child(m downto l) of parent(M downto L)
+        let h = wave.hierarchy();
+        let cvar = h.iter_vars().find(|v| v.signal_ref() == *id).unwrap();
+        let pvar = h.iter_vars().find(|v| v.signal_ref() == slice.sliced_signal).unwrap();
+        if let (Some(ci), Some(pi)) = (cvar.index(), pvar.index()) {
+            if pi.msb() >= pi.lsb() && ci.msb() >= ci.lsb() && ci.msb() <= pi.msb() && ci.lsb() >= pi.lsb() {
+                let (em, el) = ((ci.msb() - pi.lsb()) as u32, (ci.lsb() - pi.lsb()) as u32);
+                if (slice.msb, slice.lsb) != (em, el) {
+                    bad.push(format!("{}: declared ({},{}) of parent ({},{}) but slice [{}:{}]", name, ci.msb(), ci.lsb(), pi.msb(), pi.lsb(), slice.msb, slice.lsb));
+                }
+            }
+        }
         if got != exp {
             bad.push(format!("{}[{}:{}]", name, slice.msb, slice.lsb));
         }
@@ -77,4 +90,28 @@ pub fn run_ghw(args: &[&str]) -> String {
         }
     }
     if bad.is_empty() { format!("ok {} sub-range variables", checked) } else { format!("BAD {}", bad.join(";")) }
+}
+
+/// `ghwaliases <path>`: lists every sub-range variable: name, slice info, parent name, first values of both
+pub fn run_aliases(args: &[&str]) -> String {
+    let mut wave = simple::read(args[0]).unwrap();
+    let h = wave.hierarchy();
+    let mut out = vec![];
+    let mut ids = vec![];
+    for var in h.iter_vars() {
+        if let Some(slice) = h.get_slice_info(var.signal_ref()) {
+            let parent = h.iter_vars().find(|v| v.signal_ref() == slice.sliced_signal).unwrap();
+            out.push((var.full_name(h), var.index(), slice, parent.full_name(h), parent.index(), var.signal_ref()));
+            ids.push(var.signal_ref());
+            ids.push(slice.sliced_signal);
+        }
+    }
+    wave.load_signals(&ids);
+    let mut lines = vec![];
+    for (name, idx, slice, pname, pidx, id) in out {
+        let c: Vec<String> = wave.get_signal(id).unwrap().iter_changes().take(4).map(|(i, v)| format!("{}:{}", i, v.to_bit_string().unwrap())).collect();
+        let p: Vec<String> = wave.get_signal(slice.sliced_signal).unwrap().iter_changes().take(4).map(|(i, v)| format!("{}:{}", i, v.to_bit_string().unwrap())).collect();
+        lines.push(format!("{}{:?}=[{}:{}]of:{}{:?} child={} parent={}", name, idx.map(|i| (i.msb(), i.lsb())), slice.msb, slice.lsb, pname, pidx.map(|i| (i.msb(), i.lsb())), c.join(","), p.join(",")).replace(' ', ""));
+    }
+    lines.join(" ")
 }
